@@ -10,6 +10,7 @@
   receiver-immutability clause of C17 is checked dynamically by the harness.)
 -/
 import Mxj.Lemmas.Facts
+import Mxj.Generated.Facts
 namespace Mxj.C17
 open Mxj
 
